@@ -98,6 +98,69 @@ theorem patBits_bind_none {p : Pat} {ts : STy} {bs : List Bool} {m : Bool} {bind
        · simp at h)
     | simp at h
 
+/-- two variant names with the same tag number are the same name -/
+theorem find?_same_index : ∀ (vs : Variants) (a b : String) (i : Nat) (u u' : Bool) (f f' : TyList),
+    vs.find? a = some (i, u, f) → vs.find? b = some (i, u', f') → a = b
+  | .nil, _, _, _, _, _, _, _, h, _ => by simp [Variants.find?] at h
+  | .cons n u0 fs r, a, b, i, u, u', f, f', ha, hb => by
+    simp only [Variants.find?] at ha hb
+    split at ha
+    · rename_i hna
+      simp only [Option.some.injEq, Prod.mk.injEq] at ha
+      obtain ⟨rfl, _, _⟩ := ha
+      split at hb
+      · rename_i hnb
+        have e1 : n = a := by simpa using hna
+        have e2 : n = b := by simpa using hnb
+        rw [← e1, ← e2]
+      · split at hb
+        · simp only [Option.some.injEq, Prod.mk.injEq] at hb
+          omega
+        · simp at hb
+    · split at ha
+      · rename_i j u1 f1 hra
+        simp only [Option.some.injEq, Prod.mk.injEq] at ha
+        obtain ⟨rfl, _, _⟩ := ha
+        split at hb
+        · simp only [Option.some.injEq, Prod.mk.injEq] at hb
+          omega
+        · split at hb
+          · rename_i j2 u2 f2 hrb
+            simp only [Option.some.injEq, Prod.mk.injEq] at hb
+            have : j2 = j := by omega
+            subst this
+            exact find?_same_index r a b j2 u1 u2 f1 f2 hra hrb
+          · simp at hb
+      · simp at ha
+
+theorem natToBits_inj (i j sz : Nat) (hi : i < 2 ^ sz) (hj : j < 2 ^ sz) (h : natToBits i sz = natToBits j sz) : i = j := by
+  have := congrArg bitsToNat h
+  rwa [bitsToNat_natToBits, bitsToNat_natToBits, Nat.mod_eq_of_lt hi, Nat.mod_eq_of_lt hj] at this
+
+/-- comparing tags is comparing variant names -/
+theorem tag_eq (variants : Variants) (a b : String) (i j : Nat) (u u' : Bool) (f f' : TyList)
+    (ha : variants.find? a = some (i, u, f)) (hb : variants.find? b = some (j, u', f')) :
+    Arith.eqBits (natToBits i variants.tagSize) (natToBits j variants.tagSize) = (a == b) := by
+  have hl := Variants.length_le_pow_tagSize variants
+  have hi := Variants.find?_lt_length variants a i u f ha
+  have hj := Variants.find?_lt_length variants b j u' f' hb
+  have hiff := Arith.eqBits_iff (natToBits i variants.tagSize) (natToBits j variants.tagSize)
+    (by rw [natToBits_length, natToBits_length])
+  by_cases hab : a = b
+  · subst hab
+    rw [ha] at hb
+    simp only [Option.some.injEq, Prod.mk.injEq] at hb
+    obtain ⟨rfl, _, _⟩ := hb
+    simp [hiff.mpr rfl]
+  · have hne : natToBits i variants.tagSize ≠ natToBits j variants.tagSize := by
+      intro he
+      have := natToBits_inj i j _ (by omega) (by omega) he
+      subst this
+      exact hab (find?_same_index variants a b i u u' f f' ha hb)
+    cases hc : Arith.eqBits (natToBits i variants.tagSize) (natToBits j variants.tagSize)
+    · simp [hab]
+    · exact absurd (hiff.mp hc) hne
+
 mutual
 theorem patG_sound : ∀ (p : Pat) (t : Ty) (v : Val) (m : Bool) (bb : BEnv), v.hasType t = true →
     patG p t (v.encode t) = some (m, bb) → PatOK m bb (matchPat p v)
@@ -110,7 +173,7 @@ theorem patG_sound : ∀ (p : Pat) (t : Ty) (v : Val) (m : Bool) (bb : BEnv), v.
     | tuple vs =>
       simp only [patG, Val.encode] at h
       simp only [Val.hasType] at hv
-      simpa [matchPat] using patsG_sound ps ts vs m bb hv h
+      simpa [matchPat] using patsG_sound ps ts vs m bb [] hv (by simpa using h)
     | _ => simp [Val.hasType] at hv
   | .bool b, .bool, v, m, bb, hv, h => by
     simp only [patG] at h
@@ -168,8 +231,67 @@ theorem patG_sound : ∀ (p : Pat) (t : Ty) (v : Val) (m : Bool) (bb : BEnv), v.
   | .struct _ _, .array _ _, _, _, _, _, h => by simp [patG] at h
   | .struct _ _, .tuple _, _, _, _, _, h => by simp [patG] at h
   | .struct _ _, .enum _ _, _, _, _, _, h => by simp [patG] at h
-  | .enumUnit _ _, _, _, _, _, _, h => by simp [patG] at h
-  | .enumTuple _ _ _, _, _, _, _, _, h => by simp [patG] at h
+  | .enumUnit en vn, .enum en' variants, v, m, bb, hv, h => by
+    cases v with
+    | enum name' v' isU vs =>
+      simp only [Val.hasType, Bool.and_eq_true] at hv
+      obtain ⟨_, hv2⟩ := hv
+      split at hv2
+      · rename_i i' u' fts' hf'
+        simp only [patG] at h
+        split at h
+        · rename_i i u fts hf
+          simp only [Option.some.injEq, Prod.mk.injEq] at h
+          obtain ⟨rfl, rfl⟩ := h
+          simp only [Val.encode, hf', List.append_assoc]
+          rw [take_append_len _ _ _ (natToBits_length _ _), tag_eq variants vn v' i i' u u' fts fts' hf hf']
+          simp only [matchPat]
+          by_cases hvv : vn = v'
+          · subst hvv; exact ⟨fun _ => ⟨[], by simp, EnvRel.nil⟩, by simp⟩
+          · exact ⟨by simp [hvv], fun _ => by simp [hvv]⟩
+        · simp at h
+      · simp at hv2
+    | _ => simp [Val.hasType] at hv
+  | .enumTuple en vn ps, .enum en' variants, v, m, bb, hv, h => by
+    cases v with
+    | enum name' v' isU vs =>
+      simp only [Val.hasType, Bool.and_eq_true] at hv
+      obtain ⟨_, hv2⟩ := hv
+      split at hv2
+      · rename_i i' u' fts' hf'
+        simp only [Bool.and_eq_true] at hv2
+        simp only [patG] at h
+        split at h
+        · rename_i i u fts hf
+          simp only [Val.encode, hf', List.append_assoc] at h
+          rw [take_append_len _ _ _ (natToBits_length _ _), drop_append_len _ _ _ (natToBits_length _ _),
+            tag_eq variants vn v' i i' u u' fts fts' hf hf'] at h
+          split at h
+          · rename_i m2 bb2 hps
+            simp only [Option.some.injEq, Prod.mk.injEq] at h
+            obtain ⟨rfl, rfl⟩ := h
+            simp only [matchPat]
+            by_cases hvv : vn = v'
+            · subst hvv
+              rw [hf] at hf'
+              simp only [Option.some.injEq, Prod.mk.injEq] at hf'
+              obtain ⟨_, _, rfl⟩ := hf'
+              simpa using patsG_sound ps fts vs m2 bb2 _ hv2.2 hps
+            · exact ⟨by simp [hvv], fun _ => by simp [hvv]⟩
+          · simp at h
+        · simp at h
+      · simp at hv2
+    | _ => simp [Val.hasType] at hv
+  | .enumUnit _ _, .bool, _, _, _, _, h => by simp [patG] at h
+  | .enumUnit _ _, .int _, _, _, _, _, h => by simp [patG] at h
+  | .enumUnit _ _, .array _ _, _, _, _, _, h => by simp [patG] at h
+  | .enumUnit _ _, .tuple _, _, _, _, _, h => by simp [patG] at h
+  | .enumUnit _ _, .struct _ _, _, _, _, _, h => by simp [patG] at h
+  | .enumTuple _ _ _, .bool, _, _, _, _, h => by simp [patG] at h
+  | .enumTuple _ _ _, .int _, _, _, _, _, h => by simp [patG] at h
+  | .enumTuple _ _ _, .array _ _, _, _, _, _, h => by simp [patG] at h
+  | .enumTuple _ _ _, .tuple _, _, _, _, _, h => by simp [patG] at h
+  | .enumTuple _ _ _, .struct _ _, _, _, _, _, h => by simp [patG] at h
 theorem fieldsG_sound : ∀ (fps : FieldPats) (fs : Fields) (fvs : FieldVals) (m : Bool) (bb : BEnv), fvs.haveTypes fs = true →
     fieldsG fps fs (fvs.encodeEach fs) = some (m, bb) → PatOK m bb (matchFields fps fvs)
   | .nil, fs, fvs, m, bb, _, h => by
@@ -202,33 +324,32 @@ theorem fieldsG_sound : ∀ (fps : FieldPats) (fs : Fields) (fvs : FieldVals) (m
             exact ⟨fun _ => ⟨bd2 ++ bd1, rfl, r2.append r1⟩, by simp⟩
       · simp at h
     · simp at h
-theorem patsG_sound : ∀ (ps : PatList) (ts : TyList) (vs : ValList) (m : Bool) (bb : BEnv), vs.haveTypes ts = true →
-    patsG ps ts (vs.encodeEach ts) = some (m, bb) → PatOK m bb (matchPats ps vs)
-  | .nil, .nil, vs, m, bb, hv, h => by
+theorem patsG_sound : ∀ (ps : PatList) (ts : TyList) (vs : ValList) (m : Bool) (bb : BEnv) (extra : List Bool),
+    vs.haveTypes ts = true →
+    patsG ps ts (vs.encodeEach ts ++ extra) = some (m, bb) → PatOK m bb (matchPats ps vs)
+  | .nil, .nil, vs, m, bb, extra, hv, h => by
     cases vs with
     | nil =>
       simp only [patsG, Option.some.injEq, Prod.mk.injEq] at h
       obtain ⟨rfl, rfl⟩ := h
       exact ⟨fun _ => ⟨[], by simp [matchPats], EnvRel.nil⟩, by simp⟩
     | cons _ _ => simp [ValList.haveTypes] at hv
-  | .nil, .cons _ _, _, _, _, _, h => by simp [patsG] at h
-  | .cons _ _, .nil, _, _, _, _, h => by simp [patsG] at h
-  | .cons p ps, .cons t ts, vs, m, bb, hv, h => by
+  | .nil, .cons _ _, _, _, _, _, _, h => by simp [patsG] at h
+  | .cons _ _, .nil, _, _, _, _, _, h => by simp [patsG] at h
+  | .cons p ps, .cons t ts, vs, m, bb, extra, hv, h => by
     cases vs with
     | nil => simp [ValList.haveTypes] at hv
     | cons v vs =>
       simp only [ValList.haveTypes, Bool.and_eq_true] at hv
       have hl := Val.encode_length v _ hv.1
-      simp only [patsG, ValList.encodeEach] at h
-      rw [List.take_append_of_le_length (by rw [hl]; exact Nat.le_refl _), List.take_of_length_le (by rw [hl]; exact Nat.le_refl _),
-        List.drop_append, List.drop_of_length_le (by rw [hl]; exact Nat.le_refl _), hl, Nat.sub_self, List.drop_zero,
-        List.nil_append] at h
+      simp only [patsG, ValList.encodeEach, List.append_assoc] at h
+      rw [take_append_len _ _ _ hl, drop_append_len _ _ _ hl] at h
       split at h
       · rename_i m1 b1 m2 b2 h1 h2
         simp only [Option.some.injEq, Prod.mk.injEq] at h
         obtain ⟨rfl, rfl⟩ := h
         have i1 := patG_sound p t v m1 b1 hv.1 h1
-        have i2 := patsG_sound ps ts vs m2 b2 hv.2 h2
+        have i2 := patsG_sound ps ts vs m2 b2 extra hv.2 h2
         simp only [matchPats]
         cases m1 with
         | false => rw [i1.2 rfl]; exact ⟨by simp, fun _ => by simp⟩
